@@ -1,5 +1,5 @@
 (** Proofs about the camera model (C19). *)
-From Coq Require Import List Bool Arith Lia Reals Lra.
+From Coq Require Import List Bool Arith Lia Reals Lra Psatz.
 Import ListNotations.
 From GS Require Import Num NumR Camera.
 
@@ -127,4 +127,68 @@ Proof.
   - rewrite <- Hc. apply cos_decr_1; try lra.
   - assert (acos dp <= theta + 1 / 1000000) as Hle; [|lra].
     apply cos_decr_0; lra.
+Qed.
+
+(* ---- the cone characterisation of [detects] over the reals ------------------------------------ *)
+
+Definition dot3 (a b : vec3 R) : R := vx a * vx b + vy a * vy b + vz a * vz b.
+Definition rel3 (cam other : vec3 R) : vec3 R := (vx other - vx cam, vy other - vy cam, vz other - vz cam).
+
+Lemma cauchy_schwarz3 (a b : vec3 R) : dot3 a b * dot3 a b <= dot3 a a * dot3 b b.
+Proof.
+  unfold dot3, vx, vy, vz. destruct a as [[a0 a1] a2], b as [[b0 b1] b2]. simpl.
+  assert (H : (a0 * a0 + a1 * a1 + a2 * a2) * (b0 * b0 + b1 * b1 + b2 * b2) - (a0 * b0 + a1 * b1 + a2 * b2) * (a0 * b0 + a1 * b1 + a2 * b2)
+              = (a0 * b1 - a1 * b0) * (a0 * b1 - a1 * b0) + (a0 * b2 - a2 * b0) * (a0 * b2 - a2 * b0) + (a1 * b2 - a2 * b1) * (a1 * b2 - a2 * b1)) by ring.
+  pose proof (Rle_0_sqr (a0 * b1 - a1 * b0)). pose proof (Rle_0_sqr (a0 * b2 - a2 * b0)). pose proof (Rle_0_sqr (a1 * b2 - a2 * b1)).
+  unfold Rsqr in *. lra.
+Qed.
+
+(** the cosine of the angle between a unit axis and the direction to a node is in [-1, 1] *)
+Lemma unit_cosine_bounded (cv r : vec3 R) (d : R) :
+  dot3 cv cv = 1 -> 0 < d -> d * d = dot3 r r -> -1 <= dot3 cv r / d <= 1.
+Proof.
+  intros Hu Hd Hdd. pose proof (cauchy_schwarz3 cv r) as Hcs. rewrite Hu, Rmult_1_l, <- Hdd in Hcs.
+  set (q := dot3 cv r) in *.
+  assert (Hq : (q / d) * (q / d) <= 1).
+  { unfold Rdiv. replace (q * / d * (q * / d)) with ((q * q) * (/ d * / d)) by ring.
+    rewrite <- Rinv_mult. apply Rmult_le_reg_r with (d * d); [apply Rmult_lt_0_compat; lra|].
+    rewrite Rmult_assoc, Rinv_l by (apply Rgt_not_eq, Rmult_lt_0_compat; lra). lra. }
+  split; [destruct (Rle_dec (-1) (q / d)) as [H|H]; [exact H|exfalso]|destruct (Rle_dec (q / d) 1) as [H|H]; [exact H|exfalso]].
+  - apply Rnot_le_lt in H. set (u := q / d) in *. nra.
+  - apply Rnot_le_lt in H. set (u := q / d) in *. nra.
+Qed.
+
+(** C19 over the reals, for the model's own [detects]: a node at distance 0 < d <= reach is
+    reported iff the cosine of the angle between the (unit) camera axis and the direction to the
+    node is at least cos(theta + 1e-6) — i.e. iff it deviates from the axis by at most the cone
+    angle plus the code's 1e-6 tolerance; beyond the reach it is never reported; at the camera's
+    own position it always is. *)
+Theorem detects_cone_R (cv cam other : vec3 R) (theta reach : R) :
+  dot3 cv cv = 1 -> 0 <= theta + 1 / 1000000 <= PI ->
+  let r := rel3 cam other in
+  let d := sqrt (dot3 r r) in
+  detects R_ops cv theta reach cam other =
+  Some (if Rltb reach d then false
+        else if Rltb 0 d then (if Rle_dec (cos (theta + 1 / 1000000)) (dot3 cv r / d) then true else false)
+        else true).
+Proof.
+  intros Hu Ht r d.
+  assert (Hdd : 0 <= dot3 r r).
+  { unfold dot3. pose proof (Rle_0_sqr (vx r)). pose proof (Rle_0_sqr (vy r)). pose proof (Rle_0_sqr (vz r)). unfold Rsqr in *. lra. }
+  unfold detects. simpl.
+  change (sqrt ((vx other - vx cam) * (vx other - vx cam) + (vy other - vy cam) * (vy other - vy cam) + (vz other - vz cam) * (vz other - vz cam)))
+    with d.
+  destruct (Rltb reach d); [reflexivity|]. destruct (Rltb 0 d) eqn:Ed; [|reflexivity].
+  apply Rltb_true in Ed.
+  set (dp := vx cv * ((vx other - vx cam) / d) + vy cv * ((vy other - vy cam) / d) + vz cv * ((vz other - vz cam) / d)).
+  assert (Hdp : dp = dot3 cv r / d) by (unfold dp, dot3, r, rel3, vx, vy, vz; simpl; field; lra).
+  assert (Hb : -1 <= dp <= 1).
+  { rewrite Hdp. apply unit_cosine_bounded; [exact Hu|exact Ed|]. unfold d. rewrite sqrt_sqrt; [reflexivity|exact Hdd]. }
+  rewrite (clamp1_id dp Hb). unfold acos_checked. simpl.
+  assert (Rltb dp (- (1)) = false) as -> by (apply Rltb_false; lra).
+  assert (Rltb 1 dp = false) as -> by (apply Rltb_false; lra). simpl.
+  f_equal. pose proof (cone_test_R dp theta Hb Ht) as Hc. rewrite <- Hdp.
+  destruct (Rle_dec (cos (theta + 1 / 1000000)) dp) as [H|H].
+  - apply Hc. exact H.
+  - destruct (negb (Rltb theta (acos dp - 1 / 1000000))) eqn:E; [|reflexivity]. exfalso. apply H. apply Hc. reflexivity.
 Qed.
